@@ -1215,6 +1215,18 @@ public:
     using T_Rhs = std::remove_reference_t<T_RhsRef>;
     using T_Rhs_El = std::remove_all_extents_t<T_Rhs>;
 
+    // Wrappers of a different sandbox type hold values (pointers, callback
+    // trampolines) that are only meaningful for that sandbox
+    static_assert(
+      !detail::rlbox_is_wrapper_v<std::remove_cv_t<T_Rhs>> ||
+        std::is_same_v<
+          T_Sbx,
+          detail::rlbox_get_wrapper_sandbox_t<std::remove_cv_t<T_Rhs>>>,
+      "Mixing tainted data from a different sandbox types. This could "
+      "happen when you are using 2 sandbox types for example "
+      "'rlbox_noop_sandbox' and 'rlbox_lucet_sandbox', and are storing "
+      "tainted data from one sandbox in the memory of the other.");
+
     // Need to construct an example_unsandboxed_ptr for pointers or arrays of
     // pointers. Since tainted_volatile is the type of data in sandbox memory,
     // the address of data (&data) refers to a location in sandbox memory and
